@@ -610,7 +610,14 @@ func (p *sqlParser) cmpExpr() SQLExpr {
 			l = SQLIsNull{E: l, Neg: neg}
 		case p.isKw("like"):
 			p.next()
-			l = SQLBin{"like", l, p.addExpr()}
+			pat := p.addExpr()
+			if p.acceptKw("escape") {
+				// LIKE ... ESCAPE 'c' is a different predicate (the escape character is not matched literally)
+				esc := p.addExpr()
+				l = SQLBin{"like escape " + fmt.Sprint(esc), l, pat}
+			} else {
+				l = SQLBin{"like", l, pat}
+			}
 		case p.isKw("in") || (p.isKw("not") && p.isKwAt(1, "in")):
 			neg := p.acceptKw("not")
 			p.expectKw("in")
